@@ -97,6 +97,8 @@ type OpResult struct {
 	Panic   string
 	// KeptTree: the commit went through a long-lived tree that had committed before.
 	KeptTree bool
+	// AfterShortcut: ... and the previous commit of that tree was dropped by the backend.
+	AfterShortcut bool
 }
 
 // Unexpected reports whether the observed outcome differs from the model's expectation.
@@ -217,6 +219,9 @@ func (l *Lab) Do(i int) (res OpResult) {
 			defer tree.Close()
 		}
 		res.KeptTree = kept
+		// The first commit of a kept tree after one of its batches was dropped (root already
+		// existed) is the one that would persist references that were never written.
+		res.AfterShortcut = kept && l.TreeShortcut[op.Tree]
 		dropKept := func() {
 			if op.Tree > 0 {
 				tree.Close()
@@ -259,6 +264,12 @@ func (l *Lab) Do(i int) (res OpResult) {
 			l.Stats["commit.kept-tree-root-already-existed"]++
 		}
 		r := l.M.ApplyCommit(i, op, h)
+		if !existed && op.Tree > 0 {
+			if res.AfterShortcut {
+				r.AfterShortcut = true
+			}
+			l.TreeShortcut[op.Tree] = false
+		}
 		put, rem := l.DB.TakeBatch()
 		if !existed {
 			// (A second commit of an existing root is dropped by the backends.)
